@@ -89,15 +89,30 @@ static size_t esc(char *out, size_t cap, const char *s) {
   return o;
 }
 
+/* A spinning process must not fill the disk with its own trace: stop logging after a cap. */
+static unsigned long g_logbytes = 0;
+static unsigned long g_logcap = 32UL << 20;
+
 static void logline(const char *op, long ret, int err, const char *p1, const char *p2, const char *extra) {
   if (g_logfd < 0) return;
+  if (g_logbytes > g_logcap) {
+    if (g_logbytes != ~0UL) {
+      g_logbytes = ~0UL;
+      static const char m[] = "0\t0\tLOGCAP\t0\t0\t-\t-\ttrace truncated\n";
+      raw_write(g_logfd, m, sizeof m - 1);
+    }
+    return;
+  }
   char buf[2 * PMAX * 3 + 256];
   char e1[PMAX * 3], e2[PMAX * 3];
   esc(e1, sizeof e1, p1);
   esc(e2, sizeof e2, p2);
   unsigned long s = __atomic_add_fetch(&g_seq, 1, __ATOMIC_SEQ_CST);
   int n = snprintf(buf, sizeof buf, "%lu\t%ld\t%s\t%ld\t%d\t%s\t%s\t%s\n", s, gettid_(), op, ret, err, e1, e2, extra ? extra : "-");
-  if (n > 0) raw_write(g_logfd, buf, (size_t)n);
+  if (n > 0) {
+    raw_write(g_logfd, buf, (size_t)n);
+    __atomic_add_fetch(&g_logbytes, (unsigned long)n, __ATOMIC_RELAXED);
+  }
 }
 
 static void abspath(char *out, size_t cap, int dirfd, const char *path) {
@@ -186,6 +201,8 @@ __attribute__((constructor)) static void fsmon_init(void) {
   }
   const char *a1 = getenv("FSMON_ARGV1");
   g_ctl = (!a1 || !*a1 || strcmp(a1, g_argv1) == 0);
+  const char *lc = getenv("FSMON_LOG_CAP");
+  if (lc && *lc) g_logcap = strtoul(lc, NULL, 10);
   const char *lg = getenv("FSMON_LOG");
   if (lg && *lg) {
     char p[PATH_MAX];
